@@ -79,6 +79,9 @@ def run_harness(args, timeout=1800):
                        stderr=subprocess.PIPE, text=True, timeout=timeout)
     if r.returncode in (-11, -7, -6, -4, -8):
         raise HarnessCrash(args, r.returncode, r.stderr[-1500:])
+    if r.returncode == 97:
+        # the harness's own monitor: a call into the code under test did not return
+        raise HarnessCrash(args, -97, r.stderr[-4500:])
     if r.returncode != 0:
         raise ToolError("harness %s failed (%d): %s" % (args[0], r.returncode, r.stderr[-2000:]))
     last = [l for l in r.stdout.splitlines() if l.strip()]
